@@ -242,9 +242,10 @@ class ConditionLambdaInspection:
         self.text = text
 
 
-# (Blanks may follow the ``@`` and the expression of a decorator may be parenthesized; a line continuation may follow
-# the keyword of a definition. The lines which merely look like a decorator or a definition are sorted out by parsing.)
-_DECORATOR_RE = re.compile(r"^\s*@\s*[a-zA-Z_(]")
+# (Blanks may follow the ``@``, the expression of a decorator may be parenthesized and an identifier may start with
+# any letter, not only an ASCII one; a line continuation may follow the keyword of a definition.
+# The lines which merely look like a decorator or a definition are sorted out by parsing.)
+_DECORATOR_RE = re.compile(r"^\s*@\s*(?:[^\W\d]|\()")
 _DEF_CLASS_RE = re.compile(r"^\s*(async\s+def|def|class)\b")
 
 
@@ -285,7 +286,7 @@ def inspect_decorator(
     # Go up till a line starts with a decorator
     start_candidates = list(
         itertools.islice(
-            (i for i in range(lineno, -1, -1) if _DECORATOR_RE.match(lines[i])), 3
+            (i for i in range(lineno, -1, -1) if _DECORATOR_RE.match(lines[i])), 16
         )
     )
 
@@ -304,7 +305,7 @@ def inspect_decorator(
                 for i in range(lineno + 1, len(lines))
                 if _DECORATOR_RE.match(lines[i]) or _DEF_CLASS_RE.match(lines[i])
             ),
-            8,
+            16,
         )
     )
 
